@@ -307,6 +307,28 @@ fn deep_cases() -> Vec<(String, Vec<u8>)> {
     v
 }
 
+/// Bitcoin SV opcode names by byte value (script.h). Bytes 0xb1 / 0xb2 have two customary names (OP_NOP2 /
+/// OP_CHECKLOCKTIMEVERIFY, OP_NOP3 / OP_CHECKSEQUENCEVERIFY) and are left out, as are the push opcodes and undefined bytes.
+pub fn standard_opcode_name(b: u8) -> Option<&'static str> {
+    const T: [&str; 106] = [
+        "OP_1NEGATE", "OP_RESERVED", "OP_1", "OP_2", "OP_3", "OP_4", "OP_5", "OP_6", "OP_7", "OP_8", "OP_9", "OP_10", "OP_11", "OP_12", "OP_13", "OP_14", "OP_15", "OP_16",
+        "OP_NOP", "OP_VER", "OP_IF", "OP_NOTIF", "OP_VERIF", "OP_VERNOTIF", "OP_ELSE", "OP_ENDIF", "OP_VERIFY", "OP_RETURN",
+        "OP_TOALTSTACK", "OP_FROMALTSTACK", "OP_2DROP", "OP_2DUP", "OP_3DUP", "OP_2OVER", "OP_2ROT", "OP_2SWAP", "OP_IFDUP", "OP_DEPTH", "OP_DROP", "OP_DUP", "OP_NIP", "OP_OVER", "OP_PICK", "OP_ROLL", "OP_ROT", "OP_SWAP", "OP_TUCK",
+        "OP_CAT", "OP_SPLIT", "OP_NUM2BIN", "OP_BIN2NUM", "OP_SIZE",
+        "OP_INVERT", "OP_AND", "OP_OR", "OP_XOR", "OP_EQUAL", "OP_EQUALVERIFY", "OP_RESERVED1", "OP_RESERVED2",
+        "OP_1ADD", "OP_1SUB", "OP_2MUL", "OP_2DIV", "OP_NEGATE", "OP_ABS", "OP_NOT", "OP_0NOTEQUAL", "OP_ADD", "OP_SUB", "OP_MUL", "OP_DIV", "OP_MOD", "OP_LSHIFT", "OP_RSHIFT",
+        "OP_BOOLAND", "OP_BOOLOR", "OP_NUMEQUAL", "OP_NUMEQUALVERIFY", "OP_NUMNOTEQUAL", "OP_LESSTHAN", "OP_GREATERTHAN", "OP_LESSTHANOREQUAL", "OP_GREATERTHANOREQUAL", "OP_MIN", "OP_MAX", "OP_WITHIN",
+        "OP_RIPEMD160", "OP_SHA1", "OP_SHA256", "OP_HASH160", "OP_HASH256", "OP_CODESEPARATOR", "OP_CHECKSIG", "OP_CHECKSIGVERIFY", "OP_CHECKMULTISIG", "OP_CHECKMULTISIGVERIFY",
+        "OP_NOP1", "", "", "OP_NOP4", "OP_NOP5", "OP_NOP6", "OP_NOP7", "OP_NOP8", "OP_NOP9",
+    ];
+    match b {
+        0x00 => Some("OP_0"),
+        0x4f..=0xb8 => Some(T[(b - 0x4f) as usize]).filter(|n| !n.is_empty()),
+        0xb9 => Some("OP_NOP10"),
+        _ => None,
+    }
+}
+
 const HELPER_N: [u64; 24] = [
     1, 2, 74, 75, 76, 77, 254, 255, 256, 257, 65534, 65535, 65536, 65537, 1 << 20, 1 << 24, (1 << 24) + 1, (1u64 << 31) - 1, 1 << 31, (1u64 << 31) + 1, 0xfffffffe, 0xffffffff, 0x10000, 0x7fff,
 ];
@@ -490,6 +512,110 @@ pub fn spaces(tier: Tier) -> Vec<Space> {
         }
         v.push(Space::isolated("huge-declared", huge.len() as u64, move |case, acc| {
             eval_bytes(&huge[case.idx as usize], &e, acc, case);
+        }));
+    }
+    // which opcode a byte IS: the element the parser returns for byte b must be the enum variant that an independent opcode
+    // table (Bitcoin SV script.h; bytes with two customary names and bytes the library does not know are left out) names for
+    // that byte, and must convert back to b. A byte round trip alone cannot see two transposed discriminants.
+    v.push(Space::new("opcode-identity", 256, |case, acc| {
+        let b = case.idx as u8;
+        let Some(want) = standard_opcode_name(b) else { return };
+        acc.evaluations += 1;
+        acc.transitions += 1;
+        let input = json!({"script_hex": format!("{:02x}", b), "standard_name": want});
+        let got = guard(|| {
+            let parsed = Script::from_bytes(&[b]).or_else(|_| Script::from_bytes(&[b, rs::OP_ENDIF])).ok()?;
+            match parsed.to_script_bits().first()? {
+                bsv::ScriptBit::OpCode(v) => Some((format!("{:?}", v), *v as u8)),
+                bsv::ScriptBit::If { code, .. } => Some((format!("{:?}", code), *code as u8)),
+                _ => None,
+            }
+        });
+        match got {
+            Ok(Some((name, back))) => {
+                acc.traces += 1;
+                acc.nontrivial_structural += 1;
+                acc.outcome(&[0x1d, (name == want) as u8]);
+                if name != want {
+                    acc.violate("C02/to_script_bits/kind=wrong-opcode-for-byte", case.idx, case.json(input), format!("byte {:02x} is {} in the standard table; the parser returns the element {}", b, want, name));
+                } else if back != b {
+                    acc.violate("C02/to_script_bits/kind=opcode-converts-to-another-byte", case.idx, case.json(input), format!("element {} converts back to byte {:02x}", name, back));
+                }
+            }
+            Ok(None) => acc.bump("opcode_byte_not_accepted_alone", 1),
+            Err(p) => acc.violate(format!("C02/from_bytes/kind=panic@{}", panic_site(&p)), case.idx, case.json(input), p),
+        }
+    }));
+    // scripts embedded in transactions: every byte string of length <= 2 (and every conditional/truncation shape of the
+    // `cond` alphabet up to 4 symbols) as the unlocking script of an input and as the script of an output; the input's
+    // outpoint is ordinary, or has an all-zero txid with an ordinary index, or an ordinary txid with index 0xffffffff (neither
+    // is a coinbase outpoint). The transaction decoder must accept exactly when the script parser accepts, and hold the
+    // same elements.
+    {
+        let mut strings: Vec<Vec<u8>> = (0..65793u64).map(|i| if i == 0 { vec![] } else if i <= 256 { vec![(i - 1) as u8] } else { vec![((i - 257) >> 8) as u8, (i - 257) as u8] }).collect();
+        let syms: [&[u8]; 6] = [&[0x63], &[0x64], &[0x67], &[0x68], &[0x61], &[0x02, 0xaa]];
+        for k in 3..=4u32 {
+            for mut i in 0..6u64.pow(k) {
+                let mut sc = vec![];
+                for _ in 0..k {
+                    sc.extend_from_slice(syms[(i % 6) as usize]);
+                    i /= 6;
+                }
+                strings.push(sc);
+            }
+        }
+        let strings = Arc::new(strings);
+        let n = strings.len() as u64;
+        v.push(Space::new("embedded-in-transaction", n * 4, move |case, acc| {
+            let c = crate::engine::coords(case.idx, &[n, 4]);
+            let sc = &strings[c[0] as usize];
+            acc.evaluations += 1;
+            acc.transitions += 2;
+            let mut txid = [0x11u8; 32];
+            let mut vout = 1u32;
+            match c[1] {
+                1 => txid = [0u8; 32],
+                2 => vout = 0xffff_ffff,
+                _ => {}
+            }
+            let as_output = c[1] == 3;
+            let mut b = vec![1, 0, 0, 0, 1];
+            b.extend_from_slice(&txid);
+            b.extend_from_slice(&vout.to_le_bytes());
+            if as_output {
+                b.push(0);
+            } else {
+                b.push(sc.len() as u8);
+                b.extend_from_slice(sc);
+            }
+            b.extend_from_slice(&[0xfe, 0xff, 0xff, 0xff, 1]);
+            b.extend_from_slice(&[9, 0, 0, 0, 0, 0, 0, 0]);
+            if as_output {
+                b.push(sc.len() as u8);
+                b.extend_from_slice(sc);
+            } else {
+                b.push(0);
+            }
+            b.extend_from_slice(&[0, 0, 0, 0]);
+            let place = ["unlocking script, ordinary outpoint", "unlocking script, zero txid with index 1", "unlocking script, ordinary txid with index 0xffffffff", "output script"][c[1] as usize];
+            let input = json!({"script_hex": hx(sc), "place": place, "tx_hex": hx(&b)});
+            let alone = guard(|| Script::from_bytes(sc).ok().map(|s| s.to_script_bits()));
+            let inside = guard(|| bsv::Transaction::from_bytes(&b).ok().map(|t| if as_output { t.get_output(0).map(|o| o.get_script_pub_key().to_script_bits()) } else { t.get_input(0).map(|i| i.get_unlocking_script().to_script_bits()) }));
+            match (alone, inside) {
+                (Ok(a), Ok(i)) => {
+                    acc.traces += 1;
+                    acc.nontrivial_structural += 1;
+                    acc.outcome(&[0xe3, a.is_some() as u8, i.is_some() as u8]);
+                    match (a, i) {
+                        (None, Some(_)) => acc.violate("C02/Transaction::from_bytes/kind=accepts-script-the-parser-rejects", case.idx, case.json(input), "Script::from_bytes rejects these script bytes, Transaction::from_bytes accepts them in this place"),
+                        (Some(_), None) => acc.violate("C02/Transaction::from_bytes/kind=rejects-script-the-parser-accepts", case.idx, case.json(input), "Script::from_bytes accepts these script bytes, Transaction::from_bytes rejects the transaction"),
+                        (Some(a), Some(Some(i))) if a != i => acc.violate("C02/Transaction::from_bytes/kind=embedded-script-elements-differ", case.idx, case.json(input), format!("parsed alone: {:?}; inside the transaction: {:?}", a.iter().take(6).collect::<Vec<_>>(), i.iter().take(6).collect::<Vec<_>>())),
+                        (Some(_), Some(None)) => acc.violate("C02/Transaction::from_bytes/kind=embedded-script-elements-differ", case.idx, case.json(input), "the decoded transaction has no such input/output"),
+                        _ => {}
+                    }
+                }
+                (Err(p), _) | (_, Err(p)) => acc.violate(format!("C02/Transaction::from_bytes/kind=panic@{}", panic_site(&p)), case.idx, case.json(input), p),
+            }
         }));
     }
     v.push(Space::new("prefix-helper", HELPER_N.len() as u64, |case, acc| {
